@@ -190,6 +190,7 @@ def main(tier):
         def key(o):      # "full" spells the include chain with the absolute paths of the scratch directory
             e = dict(o.get("err") or {})
             e.pop("full", None)
+            e.pop("full2", None)
             return (o["outcome"], json.dumps(e, sort_keys=True), o.get("json"))
         ka, kb = key(a), key(b)
         if ka != kb:
@@ -197,6 +198,25 @@ def main(tier):
             chk.violation("result of %s differs when %s were processed before it in the same process (fault found at %s): alone %s trace %s, after them %s trace %s" % (
                 root, warm, stagekind, rel.describe(a), (a.get("err") or {}).get("trace"), rel.describe(b), (b.get("err") or {}).get("trace")),
                 {"kind": "determinism_warm", "case": warm_c, "observed_alone": a, "observed_after": b, "signature": sig}, sig)
+    # asking a diagnostic for its text twice gives the same text: faults at the bottom of INCLUDE chains of depth 0..8
+    chains = []
+    for depth in range(9):
+        for k, fault in enumerate(["GET /zf\n  200 @nosuch\n", "TYPE @zbad\n{\n", "GET /zf\n  Bogus\n", "TYPE @zd any\nTYPE @zd any\n"]):
+            files = {"main.jst": "JSIGHT 0.3\nTYPE @zm any\n" + ("INCLUDE c1.jst\n" if depth else fault)}
+            for d in range(1, depth + 1):
+                files["c%d.jst" % d] = "TYPE @zc%d any\n" % d + ("INCLUDE c%d.jst\n" % (d + 1) if d < depth else fault)
+            chains.append({"id": "ch%d_%d" % (depth, k), "files": {kk: b64(v) for kk, v in files.items()}, "root": "main.jst"})
+    cobs = harness("run", chains, nproc=2)
+    for c in chains:
+        o = cobs[c["id"]]
+        chk.evaluations += 1
+        chk.traces += 1
+        chk.nontrivial.add(c["id"])
+        e = o.get("err") or {}
+        if o["outcome"] != "error" or e.get("full") != e.get("full2"):
+            sig = {"kind": "error_text_twice", "msg": (e.get("msg") or "")[:60], "what": "the text of one diagnostic differs when asked twice", "detail": ""}
+            chk.violation("a fault below %s nested INCLUDEs: %s; Error() gave %r and then %r" % (c["id"][2], rel.describe(o), e.get("full"), e.get("full2")),
+                          {"kind": "determinism_error_twice", "case": c, "signature": sig}, sig)
     # the same project many times in a process that may hold only 96 open files and never collects garbage: a project with
     # 40 included files read 12 times gives the same result every time
     incs = {"inc/f%02d.jst" % k: "TYPE @zinc%d any\n" % k for k in range(40)}
@@ -282,6 +302,19 @@ def replay(path):
     rp = json.load(open(path))["replay"]
     chk = Check("C03", "quick")
     chk.evaluations = 1
+    if rp.get("kind") == "determinism_error_twice":
+        o = harness("run", [rp["case"]])[rp["case"]["id"]]
+        e = o.get("err") or {}
+        if e.get("full") != e.get("full2"):
+            chk.violation("reproduced: Error() gave %r and then %r" % (e.get("full"), e.get("full2")), rp, rp.get("signature"))
+        return chk.finish()
+    if rp.get("kind") == "determinism_warm":
+        c = rp["case"]
+        obs = harness("run", [dict(c, id="solo", warm=[]), dict(c, id="warm")], nproc=1)
+        strip = lambda o: (o["outcome"], json.dumps({k: v for k, v in (o.get("err") or {}).items() if k not in ("full", "full2")}, sort_keys=True), o.get("json"))
+        if strip(obs["solo"]) != strip(obs["warm"]):
+            chk.violation("reproduced: alone %s, after other projects %s" % (rel.describe(obs["solo"]), rel.describe(obs["warm"])), rp, rp.get("signature"))
+        return chk.finish()
     o = harness("run", [dict(rel.case("a", rp["file"]), reps=60)])["a"]
     if o.get("rep_diff"):
         chk.violation("reproduced: %s vs %s" % (rel.describe(o), o["rep_diff"][:300]), rp, rp.get("signature"))
